@@ -373,7 +373,7 @@ pub fn oracle_bytes(buf: &[u8], ops: &[Op], st: &mut Stats) -> Verdict {
 pub fn oracle(case: &Case, st: &mut Stats) -> Verdict {
     let buf = match &case.raw {
         Some(b) => {
-            st.class("records-with-identical-owner-octets-valid-only-at-the-later-position");
+            st.class("hand-laid-out-message");
             b.clone()
         }
         None => case.msg.render(),
@@ -486,9 +486,46 @@ fn twin_owner_case() -> impl Strategy<Value = Case> {
         })
 }
 
-/// The main generator plus, in one case of twelve, the hand-laid-out twin-owner messages.
+/// A record whose opaque RDATA holds a name followed by a ladder of pointer-only chunks (each
+/// pointing at the previous one), then records whose owner and RDATA name enter the ladder at its
+/// top: a name reached through k + 1 pointers. Any k is legal (every pointer goes backwards).
+fn pointer_ladder_case() -> impl Strategy<Value = Case> {
+    (
+        prop_oneof![3 => 1u16..8, 3 => 120u16..136, 1 => 250u16..262, 1 => 1u16..400],
+        prop::collection::vec(prop_oneof![3 => Just(Op::ReadRr), 1 => Just(Op::SkipRr), 1 => Just(Op::Peek { owner_calls: 1, end: PeekEnd::Parse }), 1 => Just(Op::Peek { owner_calls: 0, end: PeekEnd::Skip }), 1 => Just(Op::Mark), 1 => Just(Op::Rewind), 1 => Just(Op::AtEom)], 3..8),
+        any::<u16>(),
+    )
+        .prop_map(|(rungs, ops, id)| {
+            let mut b = Vec::new();
+            b.extend_from_slice(&id.to_be_bytes());
+            b.extend_from_slice(&[0x84, 0x00, 0, 0, 0, 3, 0, 0, 0, 0]);
+            // record 1: root owner, type 99, RDATA = name + ladder
+            b.push(0);
+            b.extend_from_slice(&[0, 99, 0, 1, 0, 0, 0, 60]);
+            let rdlen = 10 + 2 * rungs as usize;
+            b.extend_from_slice(&(rdlen as u16).to_be_bytes());
+            let mut target = b.len();
+            b.extend_from_slice(b"\x03abc\x04test\x00");
+            for _ in 0..rungs {
+                let here = b.len();
+                b.push(0xc0 | (target >> 8) as u8);
+                b.push(target as u8);
+                target = here;
+            }
+            // record 2: owner = label + pointer to the top rung, A
+            b.extend_from_slice(&[1, b'w', 0xc0 | (target >> 8) as u8, target as u8]);
+            b.extend_from_slice(&[0, 1, 0, 1, 0, 0, 0, 60, 0, 4, 192, 0, 2, 1]);
+            // record 3: owner = pointer to the top rung, NS whose RDATA is a pointer to the top rung
+            b.extend_from_slice(&[0xc0 | (target >> 8) as u8, target as u8]);
+            b.extend_from_slice(&[0, 2, 0, 1, 0, 0, 0, 60, 0, 2, 0xc0 | (target >> 8) as u8, target as u8]);
+            Case { msg: MsgSpec { id, flags: 0, questions: vec![], answers: vec![], authority: vec![], additional: vec![], mutations: vec![] }, ops, raw: Some(b) }
+        })
+}
+
+/// The main generator plus, in one case of twelve, the hand-laid-out twin-owner messages, and
+/// in one of twenty-four the pointer ladders.
 pub fn case_strategy_all() -> impl Strategy<Value = Case> {
-    prop_oneof![11 => case_strategy().boxed(), 1 => twin_owner_case().boxed()]
+    prop_oneof![22 => case_strategy().boxed(), 2 => twin_owner_case().boxed(), 1 => pointer_ladder_case().boxed()]
 }
 
 pub fn run(ctx: &Ctx, report: &mut Report) {
